@@ -32,7 +32,7 @@ def one_case(args):
     out = dict(case=case, viol=None, fv=s.feature_vector(), runs=0, sample=None)
     try:
         for mode, margs in obs.MODES.items():
-            opt = rng.choice([[], [], ["-m"], ["-E", str(rng.choice([1, 7, 123, 255]))], ["-E", "9", "-m"], ["-e", str(rng.choice([1, 3]))], ["-w", "10", "44", "9"]])
+            opt = rng.choice([[], [], ["-m"], ["-E", str(rng.choice([1, 7, 123, 255]))], ["-E", "9", "-m"], ["-e", str(rng.choice([1, 3]))], ["-w", "10", "44", "9"], ["-v", "0"], ["-v", "2"]])
             use_stdin = rng.random() < 0.2
             argv = ([] if use_stdin else [path]) + margs + opt
             r = obs.run(exe, argv, stdin_path=path if use_stdin else None, workdir=wd, stats=rng.choice(["json", "toml"]), tag="c%d" % case)
@@ -87,7 +87,7 @@ def run(res):
         res.inconclusive.append("grammar features never generated in this run: %s" % missing)
         if len(missing) > 3:
             res.nontrivial.clear()
-    res.rule = ("G-conf grammar streams (DESIGN.md §2.4) x 5 check modes x option rotation {none, -m, -E n, -e n, -w codes, pipe input}; non-trivial = distinct feature vector "
+    res.rule = ("G-conf grammar streams (DESIGN.md §2.4) x 5 check modes x option rotation {none, -m, -E n, -e n, -w codes, -v 0/2, pipe input}; non-trivial = distinct feature vector "
                 "(layers, format, version, split packets, no-data runs, PhT, CDW, padding lengths, merge kind, batch multiple, ...)")
     res.min_nontrivial = 40 if res.tier == "quick" else 400
     res.assumptions = ["the grammar is my reading of doc/checks_list.md, the state diagram and the shipped test files; bc <= 0xdeb and detector-field bits 23:12 reserved (see DESIGN.md §1)"]
